@@ -84,7 +84,11 @@ type Transport struct {
 	// executed by ANOTHER goroutine while it is armed may be cut short by it at any moment; the mock
 	// takes the worst case (half of the bytes go out, then the timeout). The library arms and clears a
 	// deadline inside the write lock, so this never happens unless that discipline is broken.
-	deadlineBy     string
+	deadlineBy string
+	// LaxAfterClose: a transport that does not police its own closed state (an in-memory pipe, a custom
+	// transport): writes and flushes after Close are accepted and logged (with Closed set). The channel,
+	// not the transport, has to refuse writes on a closed channel.
+	LaxAfterClose  bool
 	wstate, rstate byte
 }
 
@@ -229,7 +233,7 @@ func (m *Transport) Read(p []byte) (int, error) {
 
 func (m *Transport) writeFault() error {
 	m.writes++
-	if m.IsClosed {
+	if m.IsClosed && !m.LaxAfterClose {
 		return ErrClosed("write")
 	}
 	if (m.FailWriteAt > 0 && m.writes == m.FailWriteAt) || (m.FailWritesFrom > 0 && m.writes >= m.FailWritesFrom) {
@@ -306,7 +310,7 @@ func (m *Transport) Flush() error {
 	vsched.Op("T.Flush", m.o(), rw, nil)
 	m.plainW("Flush")
 	m.flushes++
-	if m.IsClosed {
+	if m.IsClosed && !m.LaxAfterClose {
 		m.ev('F', nil, 0, true)
 		return ErrClosed("flush")
 	}
